@@ -325,6 +325,33 @@ void cmdMatch(const Msg& req, Msg& resp)
             return;
         }
     }
+    if (req.geti("callerlists"))
+    {
+        // C09: whether a node matches must not depend on the current node list of the instruction that triggers the match
+        // (apply-templates over many nodes, a key table build, xsl:number): repeat with (a) all nodes as the caller's list and
+        // (s) a singleton list holding the node itself
+        MutableNodeRefList all(XalanMemMgrs::getDefaultXercesMemMgr());
+        for (size_t i = 0; i < nodes.size(); ++i) all.addNode(nodes[i]);
+        for (int mode = 0; mode < 2; ++mode)
+        {
+            const char* key = mode == 0 ? "ma" : "ms";
+            for (size_t i = 0; i < nodes.size(); ++i)
+            {
+                ErrInfo e2;
+                if (!guarded([&]() {
+                        MutableNodeRefList one(XalanMemMgrs::getDefaultXercesMemMgr());
+                        one.addNode(nodes[i]);
+                        XPathExecutionContext::ContextNodeListPushAndPop push(ctx, mode == 0 ? static_cast<const NodeRefListBase&>(all) : static_cast<const NodeRefListBase&>(one));
+                        XPath::eMatchScore sc = xp.getMatchScore(nodes[i], s.resolver, ctx);
+                        if (sc != XPath::eMatchScoreNone) resp.add(key, nodeKey(nodes[i]));
+                    }, e2))
+                {
+                    fail(resp, key, e2);
+                    break;
+                }
+            }
+        }
+    }
     if (req.geti("defexpr"))
     {
         XPath ex(XalanMemMgrs::getDefaultXercesMemMgr());
